@@ -215,26 +215,49 @@ func vc09NestedRLock(ops []byte) bool {
 	return false
 }
 
-// vc09RunCall runs fn in a goroutine and waits at most d. done=false: the call did not return.
-func vc09RunCall(fn func(), d time.Duration) (done bool, panicked bool) {
-	ch := make(chan bool, 1)
+// vc09Start runs fn in a goroutine; wait(d) reports whether it returned within d (it can be called again).
+type vc09Pending struct {
+	ch       chan bool
+	done     bool
+	panicked bool
+}
+
+func vc09Start(fn func()) *vc09Pending {
+	p := &vc09Pending{ch: make(chan bool, 1)}
 	go func() {
-		p := false
+		pan := false
 		defer func() {
 			if r := recover(); r != nil {
-				p = true
+				pan = true
 			}
-			ch <- p
+			p.ch <- pan
 		}()
 		fn()
 	}()
+	return p
+}
+
+func (p *vc09Pending) wait(d time.Duration) (done bool, panicked bool) {
+	if p.done {
+		return true, p.panicked
+	}
 	select {
-	case p := <-ch:
-		return true, p
+	case pan := <-p.ch:
+		p.done, p.panicked = true, pan
+		return true, pan
 	case <-time.After(d):
 		return false, false
 	}
 }
+
+// vc09RunCall runs fn in a goroutine and waits at most d. done=false: the call did not return.
+func vc09RunCall(fn func(), d time.Duration) (done bool, panicked bool) {
+	return vc09Start(fn).wait(d)
+}
+
+// a stall is declared after stallLimit; the FIRST stall of a run is re-examined after a further vc09ConfirmExtra
+// (a deadlock lasts forever; a slow machine does not)
+const vc09ConfirmExtra = 3 * time.Second
 
 // ---------------------------------------------------------------- the test
 
@@ -257,6 +280,7 @@ func TestVerif_C09(t *testing.T) {
 	}
 
 	nestedNames := map[string]bool{}
+	stallConfirmed := false
 	if wrapped {
 		sets := [][]uint64{{}, {20}, {10, 20, 30}}
 		for _, c := range vc09Calls() {
@@ -326,10 +350,13 @@ func TestVerif_C09(t *testing.T) {
 					}
 				}
 				w2.vc09Attach(rec2)
-				done2, _ := vc09RunCall(func() { c.fn(m2, ids) }, stallLimit)
-				if done2 {
-					od, _ := vc09RunCall(func() { others.Wait() }, stallLimit)
-					done2 = od
+				pend := vc09Start(func() { c.fn(m2, ids); others.Wait() })
+				done2, _ := pend.wait(stallLimit)
+				if !done2 && !stallConfirmed {
+					stallConfirmed = true
+					if done2, _ = pend.wait(vc09ConfirmExtra); done2 {
+						rep.Note("replay of %s needed more than %v but completed (slow machine); not a stall", c.name, stallLimit)
+					}
 				}
 				stalled := !done2
 				forced := !notForced.Load()
@@ -507,7 +534,7 @@ func TestVerif_C09(t *testing.T) {
 			break
 		}
 		runtime.GOMAXPROCS(procs)
-		res := vc09Stress(ids, rng.U64(), dur, stallLimit)
+		res := vc09Stress(ids, rng.U64(), dur, stallLimit, stalls == 0)
 		rep.Case(fmt.Sprintf("stress/procs=%d/seed", procs), true)
 		rep.CountN(fmt.Sprintf("stress-ops:procs=%d", procs), int(res.total))
 		rep.CountN("stress-reads", int(res.reads))
@@ -577,7 +604,7 @@ type vc09StressResult struct {
 
 // vc09Stress: 8 readers and 3 writers on one MultiEpoch. Epoch 100 (object P) is loaded for the whole run and no
 // writer ever targets it or its config path; writers add / replace / remove epochs 90..110 \ {100}.
-func vc09Stress(ids *vc09Ids, seed uint64, dur, stallLimit time.Duration) vc09StressResult {
+func vc09Stress(ids *vc09Ids, seed uint64, dur, stallLimit time.Duration, confirm bool) vc09StressResult {
 	const pinned = 100
 	m := NewMultiEpoch(&Options{})
 	P := ids.newEpoch(pinned, pinned)
@@ -774,6 +801,9 @@ func vc09Stress(ids *vc09Ids, seed uint64, dur, stallLimit time.Duration) vc09St
 	stop.Store(true)
 	// every goroutine must finish its current operation
 	deadline := time.Now().Add(stallLimit)
+	if confirm {
+		deadline = deadline.Add(vc09ConfirmExtra)
+	}
 	for time.Now().Before(deadline) {
 		all := true
 		for i := range exited {
